@@ -29,7 +29,7 @@ ASSUMPTIONS = ['"parsing fails" is read as: Message.parse raises a protocol erro
                'decrypted payloads (a changed Next Payload octet in the header hides the Encrypted payload from the parser; nothing protected '
                'is handed out)', 'byte positions and bit masks are seeded samples in quick, a full sweep of positions x bits of one message '
                'per exchange type in thorough']
-EXPECT_REACH = ['protected_verified', 'roundtrip_compared', 'tamper.flip', 'tamper.trunc', 'tamper.extend', 'tamper.cross_sa', 'tamper.reflect',
+EXPECT_REACH = ['protected_verified', 'roundtrip_compared', 'over_padded_judged', 'tamper.flip', 'tamper.trunc', 'tamper.extend', 'tamper.cross_sa', 'tamper.reflect',
                 'tamper.flags', 'mod16_all_residues', 'integ.2', 'integ.12', 'integ.14', 'encr.128', 'encr.256']
 TAMPER = ('flip', 'flip', 'flip', 'trunc', 'extend', 'cross_sa', 'reflect', 'flags')
 
@@ -184,6 +184,31 @@ def run(scenario):
                             ctx['same_keys'].add(sha(data))
         w.monitors.append(KeyAgreement())
         ctx['handlers'] = {'tamper': ctx['tamperer']}
+        # a peer that pads more than the minimum: some protected datagrams are re-sealed in flight (same payloads, same keys, a fresh IV and
+        # 1-15 extra blocks of padding).  "For every payload list ... a protected message parses back under the same keys"
+        from sim.interpose import Interposer
+        ip = ctx['ip'] = Interposer(w, tap)
+        ctx['repadded'] = {}
+
+        def repad(meta, data):
+            rr = random.Random(f'repad:{scenario.get("seed")}:{meta["key"]}')
+            if rr.random() >= 0.12:
+                return None
+            opened = ip.open(data)
+            if opened is None:
+                return None
+            h, pls, s = opened
+            try:
+                a, e = (s.keys['ai'], s.keys['ei']) if h['I'] else (s.keys['ar'], s.keys['er'])
+                new = R.sk_seal({'spi_i': h['spi_i'], 'spi_r': h['spi_r'], 'exch': h['exch'], 'I': h['I'], 'R': h['R'], 'id': h['id']}, pls, s.suite, a, e,
+                                bytes(rr.getrandbits(8) for _ in range(16)), pad_extra=rr.choice([1, 2, 5, 15]))
+                R.sk_open(new, s.suite, a, e)
+            except Exception:
+                return None
+            ctx['repadded'][sha(new)] = (meta['sender'], EXCH.get(h['exch']), h['id'])
+            return [(new, 0.0)]
+        repad.label = 'over_padded'
+        ip.rules.append(repad)
     try:
         def at_end(w, ctx):
             tap, watch = ctx['tap'], ctx['watch']
@@ -197,6 +222,15 @@ def run(scenario):
                     return w.violation(PROP, 'iv_reused', {}, p['detail'])
                 if p['kind'] == 'cannot_open_protected_message':
                     w.violation('C04', p['kind'], p['sig'], p['detail'])
+            for hsh, (sender, exch, mid) in ctx.get('repadded', {}).items():
+                got = watch.last.get(hsh)
+                if got is None:
+                    continue
+                reach['over_padded_judged'] = reach.get('over_padded_judged', 0) + 1
+                if got[0] != 'ok' and got[3] and hsh in ctx['same_keys']:
+                    return w.violation(PROP, 'authentic_protected_message_rejected', {'exchange': exch, 'error': got[0], 'padding': 'more than the minimum'},
+                                       f'a protected {exch} id {mid} of {sender}, re-sealed with the same payloads under the same keys but with whole '
+                                       f'blocks of extra padding (legal: RFC 7296 3.14), was rejected by the receiver: {got[0]}')
             # round trip across implementations: what the receiving daemon parsed == what the reference decoded
             for m in tap.messages:
                 if m['clear']:
